@@ -77,23 +77,37 @@ def decl_of(spec):
 
 
 def validate(v, tag, name, traces, timeout=3000):
-    wd = workdir(name)
-    path = os.path.join(wd, 'traces.ndjson')
-    EK = ('m', 'out', 'bytes', 'phase', 'len', 'top', 'mem', 'memlen', 'cc', 'claims', 'syms')
+    """Trace_Gen over recorded traces, in chunks of bounded size (TLC's JSON reader is slow on very large files)."""
     for t in traces:
         t['final'].setdefault('hasdecl', False)
         t['final'].setdefault('decl', {'imports': [], 'axioms': [], 'raw': False})
-    write_ndjson(path, [{'phase': t['phase'], 'claims': t['claims'], 'final': t['final'],
-                         'events': [{k: e[k] for k in EK} for e in t['events']]} for t in traces])
-    pi2v.log(f'[{tag}] {name}: trace file {os.path.getsize(path) >> 20} MB')
-    res = run_tlc('Trace_Gen', 'SPECIFICATION Spec\nCHECK_DEADLOCK FALSE\n', wd, env={'CASES': path}, timeout=timeout)
-    tlc_must_be_clean(res, name)
-    if len(res.dones) != len(traces):
-        raise MachineryError(f'{name}: TLC finished {len(res.dones)} of {len(traces)} traces')
-    v.add_tlc(res)
+    EK = ('m', 'out', 'bytes', 'phase', 'len', 'top', 'mem', 'memlen', 'cc', 'claims', 'syms')
+    lines = [json.dumps({'phase': t['phase'], 'claims': t['claims'], 'final': t['final'],
+                         'events': [{k: e[k] for k in EK} for e in t['events']]}, separators=(',', ':')) for t in traces]
+    chunks, cur, size = [], [], 0
+    for i, l in enumerate(lines):
+        if cur and size + len(l) > 50_000_000:
+            chunks.append(cur); cur, size = [], 0
+        cur.append(i); size += len(l)
+    if cur:
+        chunks.append(cur)
+    fails, nev = [], sum(len(t['events']) for t in traces)
+    total_mb = sum(len(l) for l in lines) >> 20
+    wall = 0.0
+    for ci, idx in enumerate(chunks):
+        wd = workdir(name if len(chunks) == 1 else f'{name}-{ci}')
+        path = os.path.join(wd, 'traces.ndjson')
+        with open(path, 'w') as f:
+            for i in idx:
+                f.write(lines[i] + '\n')
+        res = run_tlc('Trace_Gen', 'SPECIFICATION Spec\nCHECK_DEADLOCK FALSE\n', wd, env={'CASES': path}, timeout=timeout)
+        tlc_must_be_clean(res, name)
+        if len(res.dones) != len(idx):
+            raise MachineryError(f'{name}: TLC finished {len(res.dones)} of {len(idx)} traces')
+        v.add_tlc(res)
+        wall += res.wall
+        fails += [(idx[f[1] - 1] + 1, f[2], f[3] + ('/' + f[4] if f[4] != '-' else '')) for f in res.fails]       # (tid, line, clause/reason)
     v.cov['traces_validated_against_impl'] += len(traces)
-    nev = sum(len(t['events']) for t in traces)
     v.cov['trace_events_validated'] = v.cov.get('trace_events_validated', 0) + nev
-    fails = [(f[1], f[2], f[3] + ('/' + f[4] if f[4] != '-' else '')) for f in res.fails]       # (tid, line, clause/reason)
-    pi2v.log(f'[{tag}] {name}: {len(traces)} traces / {nev} events validated, {len(fails)} FAIL, {res.wall:.1f}s')
+    pi2v.log(f'[{tag}] {name}: {len(traces)} traces / {nev} events ({total_mb} MB in {len(chunks)} chunk(s)) validated, {len(fails)} FAIL, {wall:.1f}s')
     return fails
